@@ -148,6 +148,13 @@ func nativeReplay(e *sym.Engine, spec *Spec, pkg string, tapes []string, tries i
 			}
 			rawTail = append(rawTail, line)
 		}
+		if got == 0 && (strings.Contains(strings.Join(rawTail, "\n"), "panic:") || strings.Contains(strings.Join(rawTail, "\n"), "fatal error:")) {
+			// the test process crashed (a goroutine panicked) before the first tape reported
+			for _, tp := range pending {
+				results[tp] = replayOut{Tape: tp, Status: "crashed-before-output"}
+			}
+			break
+		}
 		if got == 0 {
 			if len(rawTail) > 12 {
 				rawTail = rawTail[len(rawTail)-12:]
